@@ -26,6 +26,8 @@
 (*                           joined without separator                      *)
 (*   "fp_of_valid_utf8"      the fingerprint is taken of the text made     *)
 (*                           valid UTF-8 (runs of invalid bytes -> U+FFFD) *)
+(*   "meaning_kept_quoted"   the meaning is taken as spelled between the   *)
+(*                           quotes of the attribute, escapes unresolved   *)
 (*   "tag_case_kept"         a tag's name is not lower-cased before it is  *)
 (*                           turned into a placeholder name                *)
 (*   "skips_call_params"     the pass that names placeholders does not     *)
@@ -45,7 +47,7 @@ Nodes ==
 
 EmptyAsg == [x \in {} |-> <<>>]
 
-Family == MsgFamFlat(MaxParts) \cup MsgFamPlural(MaxInner) \cup MsgFamExtra \cup MsgFamNested \cup MsgFamSplit
+Family == MsgFamFlat(MaxParts) \cup MsgFamPlural(MaxInner) \cup MsgFamExtra \cup MsgFamNested \cup MsgFamSplit \cup MsgFamAttr
 AllCases == IF OnlyCase # "" THEN {x \in Family : MsgFamId(x) = OnlyCase} ELSE Family
 
 Init ==
@@ -122,7 +124,8 @@ NameProps ==
 (* (3) the id.                                                             *)
 (***************************************************************************)
 IdModel(m) ==
-  IF "id_key_joined" \in Dev THEN MsgFp(MsgKeyString(m.body) \o m.meaning)
+  IF "meaning_kept_quoted" \in Dev THEN MsgIdAbs([m EXCEPT !.meaning = MsgQuoted(m.meaning)])
+  ELSE IF "id_key_joined" \in Dev THEN MsgFp(MsgKeyString(m.body) \o m.meaning)
   ELSE IF "id_includes_desc" \in Dev THEN MsgMix(MsgIdAbs(m), MsgFp(m.desc))
   ELSE IF "id_drops_meaning" \in Dev THEN MsgFp(MsgKeyString(m.body))
   ELSE MsgIdAbs(m)
@@ -170,6 +173,13 @@ IdSeparatesTextAndMeaning ==
     \A i \in 1..Len(MsgSplitStrings[cas.s]) :
        i # cas.at => IdModel(Mk(Body, MsgFamMeaning(cas), "d"))
                      # IdModel(Mk(MsgFamBody([cas EXCEPT !.at = i]), MsgFamMeaning([cas EXCEPT !.at = i]), "d"))
+
+\* the meaning that enters the id is the text the attribute denotes; the
+\* description (the same awkward texts) does not enter
+MeaningIsItsText ==
+  (todo = {} /\ cas.kind = "attr") =>
+    \A j \in 1..Len(MsgAttrTexts) :
+       IdModel(Mk(Body, MsgFamMeaning(cas), MsgAttrTexts[j])) = MsgIdAbs(Mk(Body, MsgFamMeaning(cas), "d"))
 
 \* the id is a function of the BYTES of the text: different byte strings, different ids
 \* (checked once, on one state)
